@@ -274,6 +274,38 @@ pub fn host_with_copy(rng: &mut Rng, p: &GDesc) -> GDesc {
     GDesc { nodes, links }
 }
 
+/// A host that records every `list_bind_options` call the matchers make on it (the real
+/// `PortGraph` implementation answers); the calls are replayed against the model's `pgOpts` as
+/// PGO records, i.e. the indexing model is compared with the code exactly where it is used.
+pub struct LoggedPG {
+    pub g: PortGraph,
+    pub calls: std::cell::RefCell<Vec<(PGIndexKey, Vec<(PGIndexKey, NodeIndex)>, Vec<NodeIndex>)>>,
+}
+
+impl IndexedData for LoggedPG {
+    type IndexingScheme = portmatching::portgraph::indexing::PGIndexingScheme;
+    fn list_bind_options(
+        &self,
+        key: &PGIndexKey,
+        known: &FxHashMap<PGIndexKey, NodeIndex>,
+    ) -> Vec<NodeIndex> {
+        let r = self.g.list_bind_options(key, known);
+        let mut calls = self.calls.borrow_mut();
+        if calls.len() < 4000 {
+            let mut m: Vec<(PGIndexKey, NodeIndex)> = known.iter().map(|(k, v)| (*k, *v)).collect();
+            m.sort();
+            calls.push((*key, m, r.clone()));
+        }
+        r
+    }
+}
+
+impl portmatching::Predicate<LoggedPG> for PGPredicate {
+    fn check(&self, data: &LoggedPG, args: &[impl std::borrow::Borrow<NodeIndex>]) -> bool {
+        <PGPredicate as portmatching::Predicate<PortGraph>>::check(self, &data.g, args)
+    }
+}
+
 pub type PgPat = (GDesc, Option<usize>);
 
 pub fn pg_case(
@@ -301,8 +333,11 @@ pub fn pg_case(
             None => PGPattern::from_host(g.build()),
         })
         .collect();
-    let hs: Vec<PortGraph> = hosts.iter().map(|h| h.build()).collect();
-    e2e_generic::<PGPattern<PortGraph>, PGPredicate, PortGraph>(
+    let hs: Vec<LoggedPG> = hosts
+        .iter()
+        .map(|h| LoggedPG { g: h.build(), calls: Default::default() })
+        .collect();
+    let r = e2e_generic::<PGPattern<PortGraph>, PGPredicate, LoggedPG>(
         l,
         patterns,
         if fallback_fail { PatternFallback::Fail } else { PatternFallback::Skip },
@@ -311,8 +346,37 @@ pub fn pg_case(
         enc_pgcons,
         key_string,
         enc_pgmap,
-    )
+    );
+    // the calls of `list_bind_options` made during matching, as PGO records (distinct calls;
+    // those for secondary roots first, they exercise `find_root_candidates`)
+    if !crate::e2e::is_quiet() {
+        for (hd, h) in hosts.iter().zip(&hs) {
+            let mut calls = h.calls.borrow().clone();
+            if std::env::var("PM_DEBUG").is_ok() { eprintln!("calls {}", calls.len()); }
+            calls.sort();
+            calls.dedup();
+            calls.sort_by_key(|(k, _, _)| !matches!(k, PGIndexKey::PathRoot { index } if *index > 0));
+            for (k, m, o) in calls.into_iter().take(PGO_PER_HOST) {
+                let mut l = Line::new("PGO");
+                hd.encode(&mut l);
+                enc_key(&mut l, &k);
+                l.list(&m, |l, (k, v)| {
+                    enc_key(l, k);
+                    l.tok(v.index());
+                });
+                l.arrow();
+                l.tok("ok");
+                let mut o2: Vec<usize> = o.iter().map(|n| n.index()).collect();
+                o2.sort();
+                l.nats(&o2);
+                l.emit();
+            }
+        }
+    }
+    r
 }
+
+const PGO_PER_HOST: usize = 40;
 
 pub fn gen_pg_set(rng: &mut Rng, thorough: bool, allow_noroot: bool) -> Vec<PgPat> {
     let np = rng.range(1, if thorough { 5 } else { 3 });
